@@ -209,7 +209,10 @@ class System:
                 impl.obj.stopTestRun()
             else:
                 reported = m.event(op[1])
-                impl.obj.status(**dict(op[1]))
+                # (test_id, test_status and test_tags are passed positionally, the rest by keyword:
+                # StreamResult.status documents that order)
+                kw = dict(op[1])
+                impl.obj.status(kw.pop("test_id"), kw.pop("test_status"), kw.pop("test_tags"), **kw)
         except Exception as e:
             if check:
                 problems.append(("call-raised", "%s raised %s: %s" % (op[0], type(e).__name__, e)))
